@@ -15,49 +15,65 @@ DOT == 46
 MINUS == 45
 IsNumCh(c) == IsDigitCode(c) \/ c = DOT
 \* last index of the maximal run from i of numeric / alphabetic code points
-RECURSIVE RunEndNum(_, _), RunEndAlpha(_, _)
+RECURSIVE RunEndNum(_, _), RunEndAlpha(_, _), RunEndDigits(_, _)
+RunEndDigits(t, i) == IF i < Len(t) /\ IsDigitCode(t[i + 1]) THEN RunEndDigits(t, i + 1) ELSE i
 RunEndNum(t, i) == IF i < Len(t) /\ IsNumCh(t[i + 1]) THEN RunEndNum(t, i + 1) ELSE i
 RunEndAlpha(t, i) == IF i < Len(t) /\ IsAlphaCode(t[i + 1]) THEN RunEndAlpha(t, i + 1) ELSE i
 
+\* an exponent part  [eE][-+]?digits  directly after a numeric run ending at j
+IsE(c) == c = 69 \/ c = 101
+ExpEnd(t, j) ==
+  IF j + 1 <= Len(t) /\ IsE(t[j + 1]) THEN
+       LET k == IF j + 2 <= Len(t) /\ t[j + 2] \in {43, 45} THEN j + 2 ELSE j + 1 IN
+       IF k + 1 <= Len(t) /\ IsDigitCode(t[k + 1]) THEN RunEndDigits(t, k + 1) ELSE j
+  ELSE j
 RECURSIVE TokFrom(_, _)
 TokFrom(t, i) ==
   IF i > Len(t) THEN <<>>
   ELSE LET c == t[i] IN
     IF c = MINUS /\ i < Len(t) /\ IsNumCh(t[i + 1]) THEN
-         LET e == RunEndNum(t, i + 1) IN <<SubSeq(t, i, e)>> \o TokFrom(t, e + 1)
+         LET e == ExpEnd(t, RunEndNum(t, i + 1)) IN <<SubSeq(t, i, e)>> \o TokFrom(t, e + 1)
     ELSE IF IsNumCh(c) THEN
-         LET e == RunEndNum(t, i) IN <<SubSeq(t, i, e)>> \o TokFrom(t, e + 1)
+         LET e == ExpEnd(t, RunEndNum(t, i)) IN <<SubSeq(t, i, e)>> \o TokFrom(t, e + 1)
     ELSE IF IsAlphaCode(c) THEN
          LET e == RunEndAlpha(t, i) IN <<SubSeq(t, i, e)>> \o TokFrom(t, e + 1)
     ELSE IF IsSpaceCode(c) THEN TokFrom(t, i + 1)
     ELSE <<<<c>>>> \o TokFrom(t, i + 1)
 Tokenise(t) == TokFrom(t, 1)
 
-\* a numeric token: optional '-', digits with at most one '.', at least one digit
+\* a numeric token: optional '-', digits with at most one '.', at least one digit,
+\* optionally followed by an exponent part
+EPos(tok) == {k \in 1..Len(tok) : IsE(tok[k])}
+Mant(tok) == IF EPos(tok) = {} THEN tok ELSE SubSeq(tok, 1, (CHOOSE k \in EPos(tok) : TRUE) - 1)
+ExpPart(tok) == IF EPos(tok) = {} THEN <<>> ELSE SubSeq(tok, (CHOOSE k \in EPos(tok) : TRUE) + 1, Len(tok))
+ExpVal(tok) == LET x == ExpPart(tok) IN
+  IF x = <<>> THEN 0
+  ELSE IF x[1] = MINUS THEN 0 - DecValue(Tail(x)) ELSE IF x[1] = 43 THEN DecValue(Tail(x)) ELSE DecValue(x)
 Digits(tok) == {k \in 1..Len(tok) : IsDigitCode(tok[k])}
 Dots(tok) == {k \in 1..Len(tok) : tok[k] = DOT}
-IsNumTok(tok) ==
+IsMantissa(tok) ==
   /\ Len(tok) > 0
   /\ \A k \in 1..Len(tok) : IsNumCh(tok[k]) \/ (k = 1 /\ tok[k] = MINUS)
   /\ Cardinality(Dots(tok)) <= 1 /\ Digits(tok) # {}
-\* its value as a Mag: digits without the dot, scaled by 10^-(digits after the dot)
-NumMag(tok) ==
-  LET neg == tok[1] = MINUS
-      body == IF neg THEN Tail(tok) ELSE tok
+IsNumTok(tok) ==
+  /\ Cardinality(EPos(tok)) <= 1 /\ IsMantissa(Mant(tok))
+  /\ EPos(tok) # {} => LET x == ExpPart(tok) IN
+        /\ Len(x) > 0
+        /\ LET d == IF x[1] \in {43, 45} THEN Tail(x) ELSE x IN AllDigits(d)
+MantParts(tok) ==
+  LET mt == Mant(tok)
+      neg == mt[1] = MINUS
+      body == IF neg THEN Tail(mt) ELSE mt
       ds == SelectSeq(body, IsDigitCode)
       dot == {k \in 1..Len(body) : body[k] = DOT}
-      frac == IF dot = {} THEN 0 ELSE Len(body) - (CHOOSE k \in dot : TRUE)
-      n == DecValue(ds)
-  IN MagMul(MagDec(IF neg THEN -n ELSE n, 0), MagPow10(-frac))
+  IN [neg |-> neg, n |-> DecValue(ds),
+      frac |-> IF dot = {} THEN 0 ELSE Len(body) - (CHOOSE k \in dot : TRUE)]
+\* its value as a Mag: digits without the dot, scaled by 10^(exponent - digits after the dot)
+NumMag(tok) == LET p == MantParts(tok) IN
+  MagMul(MagDec(IF p.neg THEN 0 - p.n ELSE p.n, 0), MagPow10(ExpVal(tok) - p.frac))
 \* ... and as a rational (used for exponents)
-NumRat(tok) ==
-  LET neg == tok[1] = MINUS
-      body == IF neg THEN Tail(tok) ELSE tok
-      ds == SelectSeq(body, IsDigitCode)
-      dot == {k \in 1..Len(body) : body[k] = DOT}
-      frac == IF dot = {} THEN 0 ELSE Len(body) - (CHOOSE k \in dot : TRUE)
-      n == DecValue(ds)
-  IN RDiv(R(IF neg THEN -n ELSE n), RPowI(R(10), frac))
+NumRat(tok) == LET p == MantParts(tok) IN
+  RMul(R(IF p.neg THEN 0 - p.n ELSE p.n), RPowI(R(10), ExpVal(tok) - p.frac))
 AllAlpha(tok) == Len(tok) > 0 /\ \A k \in 1..Len(tok) : IsAlphaCode(tok[k])
 
 \* ------------------------------------------------------------------ parser
